@@ -516,6 +516,27 @@ pub fn run(tier: Tier) -> Report {
             acc.check(same(c4.0[0], x * w) && same(c4.0[3], 2. * w), "Coor4D: inherent scale is not element-wise", || json!({"tuple": [x, 1., -1., 2.], "factor": format!("{w:?}"), "got": format!("{:?}", c4.0)}));
         }
     }
+    // the inherent dot of the concrete types on values whose products need more than 24 bits, or leave the range of
+    // f32: the sum of the products of the STORED elements, in f64 (round 11: a 32-bit tuple that multiplied in f32)
+    {
+        let w: [f64; 9] = [4097., 0.1, 0.7, -3.3, 1e20, -1e20, 1e-30, 16777217., 123456.789];
+        for &a0 in &w {
+            for &a1 in &w {
+                for &b0 in &w {
+                    for &b1 in &w {
+                        rep.eval(4);
+                        let same = |a: f64, b: f64| bits(a) == bits(b) || (a.is_nan() && b.is_nan());
+                        let (p, q) = (Coor32([a0 as f32, a1 as f32]), Coor32([b0 as f32, b1 as f32]));
+                        let want = (p.0[0] as f64) * (q.0[0] as f64) + (p.0[1] as f64) * (q.0[1] as f64);
+                        acc.check(same(p.dot(q), want), "Coor32: inherent dot is not the sum of the element products", || json!({"a": format!("{:?}", p.0), "b": format!("{:?}", q.0), "got": p.dot(q), "expected": want}));
+                        acc.check(same(Coor2D([a0, a1]).dot(Coor2D([b0, b1])), a0 * b0 + a1 * b1), "Coor2D: inherent dot is not the sum of the element products", || json!({"a": [a0, a1], "b": [b0, b1]}));
+                        acc.check(same(Coor3D([a0, a1, b1]).dot(Coor3D([b0, b1, a0])), a0 * b0 + a1 * b1 + b1 * a0), "Coor3D: inherent dot is not the sum of the element products", || json!({"a": [a0, a1, b1], "b": [b0, b1, a0]}));
+                        acc.check(same(Coor4D([a0, a1, b1, b0]).dot(Coor4D([b0, b1, a0, a1])), a0 * b0 + a1 * b1 + b1 * a0 + b0 * a1), "Coor4D: inherent dot is not the sum of the element products", || json!({"a": [a0, a1, b1, b0], "b": [b0, b1, a0, a1]}));
+                    }
+                }
+            }
+        }
+    }
     match catch(|| containers(&acc)) {
         Ok(()) => {}
         Err(p) => rep.violation(&format!("container access panics: {}", panic_class(&p)), json!({"panic": p})),
